@@ -479,7 +479,7 @@ func corrSig(c *hc.Ctx) {
 		skip := false
 		for _, s := range in {
 			// a closed CUBIC with a collinear fold-back control polygon still flattens to nothing (recorded
-			// defect class, judged by the oracle in oraclePaths); closed quadratics are repaired (459021a)
+			// defect class, judged by the oracle in oraclePaths); closed quadratics are repaired (717ff35)
 			if fold, col := foldback(s); s.Kind == 'C' && s.P0.Dist(s.End) < 1e-9 && fold && col {
 				skip = true
 			}
@@ -995,12 +995,12 @@ var regressionInputs = []struct {
 	name, path string
 	tols       []float64
 }{
-	{"fix-beyond-end 0b69218", "M5.25 13.188C-9 8.401 6 1.369 -1.929 6", []float64{1}},
-	{"fix-backtrack f26c4de", "M4.75 -16.342C2.009085582444131 1.1275676600967628 4.744297569384708 -15.214432339903237 2 0", []float64{0.1, 0.01}},
-	{"fix-end-inflection e58f3d4", "M0.214 -15.896C16.371 -3 -0.854 19.91 -0.854 19.91", tolerances},
-	{"fix-foldback-quad 459021a", "M0 0Q2 0 1 0", tolerances},
-	{"fix-foldback-quad 459021a", "M0 0Q0.5 100 1 0", tolerances},
-	{"fix-foldback-quad 459021a", "M9 9L8 8M0 0Q1 0 0 0M5 5L6 6", tolerances},
+	{"fix-beyond-end 1552b69", "M5.25 13.188C-9 8.401 6 1.369 -1.929 6", []float64{1}},
+	{"fix-backtrack 36c5472", "M4.75 -16.342C2.009085582444131 1.1275676600967628 4.744297569384708 -15.214432339903237 2 0", []float64{0.1, 0.01}},
+	{"fix-end-inflection db1c93a", "M0.214 -15.896C16.371 -3 -0.854 19.91 -0.854 19.91", tolerances},
+	{"fix-foldback-quad 717ff35", "M0 0Q2 0 1 0", tolerances},
+	{"fix-foldback-quad 717ff35", "M0 0Q0.5 100 1 0", tolerances},
+	{"fix-foldback-quad 717ff35", "M9 9L8 8M0 0Q1 0 0 0M5 5L6 6", tolerances},
 	{"fix-lineto 219108c", "M-3 7.23Q-18.22 -18.615 -15.935 0Q-14.033 -8 -19.436 4.25L-3 11.485L-3 -5.576Q-8 10 -3 5z", []float64{1}},
 }
 
